@@ -326,6 +326,8 @@ def _read_partial_sparsemap(fits, nfine_per_cov, wmult, cov_index_map_temp,
         sub = np.clip(np.searchsorted(cov_pix_temp, pixels), 0, cov_pix_temp.size - 1)
         ok, = np.where(cov_pix_temp[sub] == pixels)
         sub = np.sort(sub[ok])
+        # Only these pixels have a block in sparse_map_temp, in this order.
+        pixels = cov_pix_temp[sub]
 
         sparse_map_temp = np.zeros((sub.size + 1)*nfine_per_cov*wmult,
                                    dtype=dtype)
